@@ -95,34 +95,61 @@ pub fn emitted_modules(
   out
 }
 
-/// resolved export names of an emitted module: own + non-default names of
-/// star re-exports (least fixpoint over the emitted modules)
-pub fn resolved_exports(
+/// Export names of every emitted module that are *grounded*: own
+/// declarations and `* as ns`, names re-exported by name from a module where
+/// the original name is grounded, and the non-default grounded names of star
+/// re-exports - the least fixpoint, so a name that only refers back to itself
+/// through a cycle of re-exports is not an export. A module without emitted
+/// counterpart offers the wildcard `*` (unknown names, be permissive).
+pub fn grounded_exports(
   emitted: &BTreeMap<ModuleSpecifier, fc::ExportSet>,
   graph: &ModuleGraph,
-  spec: &ModuleSpecifier,
-  seen: &mut BTreeSet<ModuleSpecifier>,
-) -> Option<BTreeSet<String>> {
-  if !seen.insert(spec.clone()) {
-    return Some(BTreeSet::new());
+) -> BTreeMap<ModuleSpecifier, BTreeSet<String>> {
+  let target_of = |s: &str, spec: &ModuleSpecifier| -> Option<ModuleSpecifier> {
+    let t = deno_graph::resolve_import(s, spec).ok()?;
+    Some(graph.resolve(&t).clone())
+  };
+  let mut g: BTreeMap<ModuleSpecifier, BTreeSet<String>> = BTreeMap::new();
+  for (spec, set) in emitted {
+    let indirect: BTreeSet<&String> = set.indirect.iter().map(|x| &x.0).collect();
+    g.insert(
+      spec.clone(),
+      set.names.iter().filter(|n| !indirect.contains(n)).cloned().collect(),
+    );
   }
-  let set = emitted.get(spec)?;
-  let mut names = set.names.clone();
-  for s in &set.stars {
-    let Ok(target) = deno_graph::resolve_import(s, spec) else { continue };
-    let target = graph.resolve(&target).clone();
-    if let Some(inner) = resolved_exports(emitted, graph, &target, seen) {
-      for n in inner {
-        if n != "default" {
-          names.insert(n);
+  loop {
+    let mut changed = false;
+    for (spec, set) in emitted {
+      let mut add: Vec<String> = Vec::new();
+      for (name, orig, src) in &set.indirect {
+        let ok = match target_of(src, spec) {
+          Some(t) => match g.get(&t) {
+            Some(names) => names.contains(orig) || names.contains("*"),
+            None => true,
+          },
+          None => true,
+        };
+        if ok {
+          add.push(name.clone());
         }
       }
-    } else {
-      // a module without emitted counterpart: unknown names, be permissive
-      names.insert("*".to_string());
+      for s in &set.stars {
+        match target_of(s, spec).and_then(|t| g.get(&t).cloned()) {
+          Some(names) => add.extend(names.into_iter().filter(|n| n != "default")),
+          None => add.push("*".to_string()),
+        }
+      }
+      let mine = g.get_mut(spec).unwrap();
+      for a in add {
+        if mine.insert(a) {
+          changed = true;
+        }
+      }
+    }
+    if !changed {
+      return g;
     }
   }
-  Some(names)
 }
 
 const MODIFIERS: &[&str] = &[
@@ -143,6 +170,7 @@ pub fn check_module_closure(
   source_map: &str,
   mt: deno_graph::MediaType,
   emitted_sets: &BTreeMap<ModuleSpecifier, fc::ExportSet>,
+  grounded: &BTreeMap<ModuleSpecifier, BTreeSet<String>>,
   o: &mut Outcome,
   id: &str,
 ) {
@@ -230,9 +258,7 @@ pub fn check_module_closure(
       continue;
     }
     if emitted_sets.contains_key(&final_target) {
-      let exported =
-        resolved_exports(emitted_sets, graph, &final_target, &mut BTreeSet::new())
-          .unwrap_or_default();
+      let exported = grounded.get(&final_target).cloned().unwrap_or_default();
       if exported.contains("*") {
         continue;
       }
@@ -426,6 +452,17 @@ pub fn check_source_map(
   }
 }
 
+/// Packages with a by-name re-export that sits inside a cycle of re-exports
+/// (excluded from generation, kept as one recorded case): violations found
+/// there carry their own signature.
+pub fn mark_named_cycle(pkgs: &[Package], o: &mut Outcome) {
+  if pkgs.iter().any(|k| k.rec.named_reexport_in_cycle) {
+    for v in o.violations.iter_mut() {
+      v.sig = format!("{}/named-re-export-inside-a-re-export-cycle", v.sig);
+    }
+  }
+}
+
 pub fn check_graph(graph: &ModuleGraph, o: &mut Outcome, id: &str) -> usize {
   let mods = emitted_modules(graph);
   let mut sets: BTreeMap<ModuleSpecifier, fc::ExportSet> = BTreeMap::new();
@@ -434,8 +471,9 @@ pub fn check_graph(graph: &ModuleGraph, o: &mut Outcome, id: &str) -> usize {
       sets.insert(spec.clone(), fc::export_set(&p));
     }
   }
+  let grounded = grounded_exports(&sets, graph);
   for (spec, original, emitted, sm, mt) in &mods {
-    check_module_closure(graph, spec, original, emitted, sm, *mt, &sets, o, id);
+    check_module_closure(graph, spec, original, emitted, sm, *mt, &sets, &grounded, o, id);
   }
   mods.len()
 }
@@ -449,10 +487,16 @@ pub fn check(case: &Case, _tier: Tier) -> Outcome {
     return o;
   }
   let n = check_graph(&p.graph, &mut o, "C09");
+  mark_named_cycle(&p.pkgs, &mut o);
   let cross = p.pkgs.iter().map(|k| k.rec.cross_module_refs).sum::<usize>();
   let chain = p.pkgs.iter().map(|k| k.rec.max_chain).max().unwrap_or(0);
   if n > 0 {
     o.label("output-produced");
+    for k in &p.pkgs {
+      for sh in &k.rec.shapes {
+        o.label(format!("shape:{sh}"));
+      }
+    }
   } else {
     o.label("diagnostics-only");
   }
